@@ -447,8 +447,8 @@ func dumpFunc(p *Prog, key string) {
 					fmt.Printf("   IF %s   [%s]\n", p.D(x.Cond), p.Pos(p.InstrPos(in)))
 				case *ssa.Return:
 					var rs []string
-					for _, r := range x.Results {
-						rs = append(rs, p.D(r))
+					for i := range x.Results {
+						rs = append(rs, p.D(RetVal(x, i)))
 					}
 					fmt.Printf("   RETURN %s   [%s]\n", strings.Join(rs, ", "), p.Pos(p.InstrPos(in)))
 				case *ssa.Store:
